@@ -405,7 +405,7 @@ def split (ids, k, rng):
 def gen_stats (rng, n):
   base = 1000
   for ci in range(n):
-    nreq = rng.choice([1, 1, 2, 2, 3])
+    nreq = rng.choice([1, 1, 2, 2, 3, 3, 5, 6, 8, 12])   # (many requests outstanding at once, too)
     reqs = []
     for r in range(nreq):
       st = rng.choice([1, 3, 4, 5])
